@@ -220,7 +220,9 @@ def r4_loop(ctx, fam):
 
     def raiser(e):
         if e.callee() == 'connect' and e.recv() == 'self':
-            return {'ConnectionError'}
+            # the two ways an attempt fails: the server cannot be reached or
+            # refuses, or engine.io will not start a connection (ValueError)
+            return [{'ConnectionError'}, {'ValueError'}]
         if e.callee() == 'wait_for':
             return {'TimeoutError'}
         return None
@@ -258,6 +260,7 @@ def r4_loop(ctx, fam):
                   'false and never reconnects' % kind, where=w,
                   rid='C10.R8')
     cleared_seen = set()
+    bound_seen = set()
     for p in run.paths:
         if not p.normal:
             continue
@@ -294,6 +297,24 @@ def r4_loop(ctx, fam):
                       'exactly one abort wait' % (i + 1), key='wait-first',
                       reason='attempt %d preceded by %d abort waits' % (
                           i + 1, len(ws)), where=where(f, a.node))
+        # every failed attempt is counted against the limit before the next
+        # one: the bound test lies between two consecutive attempts
+        for i in range(len(attempts) - 1):
+            between = [c for c in p.conds
+                       if attempts[i].idx < c.at <= attempts[i + 1].idx and
+                       'self.reconnection_attempts' in U(run.expand(c.atom))]
+            if (i, bool(between)) in bound_seen:
+                continue
+            bound_seen.add((i, bool(between)))
+            ctx.check(bool(between), construct, 'the attempt limit is '
+                      'tested after failed attempt %d, before the next one'
+                      % (i + 1), key='bound-every-failure',
+                      reason='attempt %d fails and attempt %d follows '
+                      'without reconnection_attempts having been consulted '
+                      'in between: a failure of this kind never ends the '
+                      'effort, so more than reconnection_attempts attempts '
+                      'are made' % (i + 1, i + 2),
+                      where=where(f, attempts[i + 1].node))
         # classify the exit
         aborted = [c for c in p.conds
                    if (('_reconnect_abort' in U(run.expand(c.atom)) and
@@ -545,6 +566,13 @@ def r9_abort_not_self_inflicted(ctx, fam):
 
 
 def run(ctx):
+    ctx.rule('C10.R11', 'exception identity: ConnectionError / TimeoutError '
+             'named in the client modules are the package\'s classes (what '
+             'connect() raises and the reconnect loop catches), never the '
+             'builtins of the same name', floor=0)
+    from .common import exception_identity
+    exception_identity(ctx, ('client', 'async_client', 'base_client'),
+                       'C10.R11')
     ctx.rule('C10.R9', 'the abort event is not raised from inside the '
              'reconnection effort', floor=2)
     for fam in SA:
